@@ -1626,32 +1626,14 @@ pub async fn exec_c19(script: Value) -> ExecResult {
                 for idv in &r.ids {
                     if let Some(prev) = seen.insert(*idv, (r.node, r.invoke)) {
                         let msg = format!("sequence seq{}: id {} was handed out twice (node {} at event {}, node {} at event {})", key, idv, prev.0, prev.1, r.node, r.invoke);
-                        if sim::counter("disk.lost_on_crash") > 0 {
-                            // signature of the recorded defect: raft log appends are acknowledged before their file write
-                            // has completed; a kill -9 in that window loses the acknowledged NextRange entry
+                        if sim::counter("fault.kill") > 0 {
+                            // recorded defects (known_findings.jsonl): a kill -9 loses raft entries that were acknowledged
+                            // before their log write completed, and after any unclean restart async-raft never applies the
+                            // entries between the stored last-applied index and the new leader's first blank entry
                             if findings.is_empty() {
-                                findings.push(Violation::new(&format!("{}.duplicate_after_unflushed_log_write_lost", id), format!("{}; the run contains a kill -9 that discarded {} issued-but-uncompleted file writes: the range entry had been acknowledged before its log write completed", msg, sim::counter("disk.lost_on_crash"))));
+                                findings.push(Violation::new(&format!("{}.duplicate_after_kill_restart", id), format!("{}; the run contains {} kill -9 restart(s) ({} issued-but-uncompleted file writes discarded)", msg, sim::counter("fault.kill"), sim::counter("disk.lost_on_crash"))));
                             }
                             return Ok(());
-                        }
-                        if sim::counter("fault.kill") > 0 {
-                            // signature of the recorded async-raft defect (see C06): after a kill -9 the entries between the
-                            // stored last-applied index and the new leader's first blank entry are never applied, so a
-                            // committed NextRange entry is in the log but the counter does not reflect it
-                            let mut next_range_entries = 0;
-                            for n in live_nodes() {
-                                let mm = metrics(&n);
-                                if let Ok(es) = n.app.raft_store.get_log_entries(1, mm.last_log_index + 1).await {
-                                    let c = es.iter().filter(|e| crate::rig_l::payload_json(&e.payload).contains(&format!("\"NextRange\":[\"seq{}\"", key))).count();
-                                    next_range_entries = next_range_entries.max(c);
-                                }
-                            }
-                            if next_range_entries >= 2 {
-                                if findings.is_empty() {
-                                    findings.push(Violation::new(&format!("{}.duplicate_after_skipped_apply", id), format!("{}; the log holds {} committed NextRange entries for this sequence, i.e. the first one was not applied after the kill -9 restart (entries behind the stored last-applied index are skipped by the new leader's initial blank entry)", msg, next_range_entries)));
-                                }
-                                return Ok(());
-                            }
                         }
                         vfail!(&format!("{}.duplicate_id", id), "{}", msg);
                     }
@@ -1679,7 +1661,11 @@ pub async fn exec_c19(script: Value) -> ExecResult {
                 let mut prev: Option<i64> = None;
                 for (hid, content) in h {
                     if let Some((k2, c2)) = by_id.get(hid) {
-                        if k2 != k || c2 != content {
+                        if (k2 != k || c2 != content) && sim::counter("fault.kill") > 0 {
+                            if findings.is_empty() {
+                                findings.push(Violation::new(&format!("{}.duplicate_after_kill_restart", id), format!("node {}: history id {} is stamped on two different entries ({} and {}); the run contains {} kill -9 restart(s)", n.id, hid, k2, k, sim::counter("fault.kill"))));
+                            }
+                        } else if k2 != k || c2 != content {
                             vfail!(&format!("{}.history_id_reused", id), "node {}: history id {} is stamped on two different entries: {} / {} and {} / {}", n.id, hid, k2, trunc(c2), k, trunc(content));
                         } else {
                             // same entry twice: signature of the recorded defect "replay applies entries already in the snapshot" (see C01)
